@@ -350,6 +350,10 @@ bool dis_interval<Number>::operator<=(const dis_interval<Number> &o) const {
     return true;
   } else if (o.is_bottom()) {
     return false;
+  } else if (o.is_top()) {
+    return true;
+  } else if (this->is_top()) {
+    return false;
   } else {
 
     unsigned j = 0;
